@@ -185,7 +185,8 @@ structure EcosArgs (K : Type) where
   boolIdx : List ℕ
   intIdx  : List ℕ
 
-/-- the keyword arguments `bool_vars_idx`/`int_vars_idx` are passed only in this case -/
+/-- the keyword argument `int_vars_idx` is passed only in this case (`bool_vars_idx` never is since the
+repair of `eco_solver.solve`: `boolIdx = []` stands for the absent keyword) -/
 def EcosArgs.mixed (d : EcosArgs K) : Bool := !(d.boolIdx.isEmpty && d.intIdx.isEmpty)
 
 /-- ECOS' slack vector `s = h - G x` -/
@@ -220,23 +221,35 @@ def zlbIdx (P : LinProg K) : List ℕ := (List.range P.nc).filter fun j => (P.lb
 /-- `np.argwhere(ub < inf)` -/
 def zubIdx (P : LinProg K) : List ℕ := (List.range P.nc).filter fun j => (P.ub j).isSome
 
-/-- `eco_solver.solve(formula)` -/
+/-- the bounds `eco_solver.solve` builds its bound rows from: `lower = where(B, max(lb, 0), lb)`,
+`upper = where(B, min(ub, 1), ub)` (rows, sense and cost untouched) -/
+def clipBin (L : LinProg K) (vt : ℕ → Char) : LinProg K :=
+  { L with
+    lb := fun j => if vt j = 'B' then lbBin (L.lb j) else L.lb j
+    ub := fun j => if vt j = 'B' then ubBin (L.ub j) else L.ub j }
+
+/-- `eco_solver.solve(formula)`.  Binaries are passed as INTEGER variables within `[0, 1]`
+(ECOS_BB mixes up the bound rows of binary and integer variables unless every binary column precedes
+every integer column): no `bool_vars_idx` at all, `int_vars_idx` = the columns with `vtype in 'BI'`
+(ascending), and the bound rows `Glb`/`Gub`/`h` are built from the clipped bounds `clipBin` - a binary
+column always has both bound rows. -/
 def ecos (P : ConeProg K) (vt : ℕ → Char) : EcosArgs K :=
   let L := P.lp
+  let Lc := clipBin L vt
   { n := L.nc, c := L.c
-    G := (ineqIdx L).map L.a ++ (zlbIdx L).map (unitRow (-1)) ++ (zubIdx L).map (unitRow 1) ++
+    G := (ineqIdx L).map L.a ++ (zlbIdx Lc).map (unitRow (-1)) ++ (zubIdx Lc).map (unitRow 1) ++
          P.qmat.flatMap (fun q => q.map (unitRow (-1))) ++
          P.xmat.flatMap (fun e => e.map (unitRow (-1)))
-    h := (ineqIdx L).map L.b ++ (zlbIdx L).map (fun j => - (L.lb j).getD 0) ++
-         (zubIdx L).map (fun j => (L.ub j).getD 0) ++
+    h := (ineqIdx L).map L.b ++ (zlbIdx Lc).map (fun j => - (Lc.lb j).getD 0) ++
+         (zubIdx Lc).map (fun j => (Lc.ub j).getD 0) ++
          List.replicate (P.qmat.map List.length).sum 0 ++ List.replicate (P.xmat.length * 3) 0
-    dimL := (ineqIdx L).length + (zlbIdx L).length + (zubIdx L).length
+    dimL := (ineqIdx L).length + (zlbIdx Lc).length + (zubIdx Lc).length
     dimQ := P.qmat.map List.length
     dimE := P.xmat.length
     A := if (eqIdx L).length > 0 then some ((eqIdx L).map L.a) else none
     b := if (eqIdx L).length > 0 then some ((eqIdx L).map L.b) else none
-    boolIdx := (List.range L.nc).filter fun j => vt j == 'B'
-    intIdx := (List.range L.nc).filter fun j => vt j == 'I' }
+    boolIdx := []
+    intIdx := (List.range L.nc).filter fun j => vt j == 'B' || vt j == 'I' }
 
 /-! ### OR-Tools -/
 
